@@ -9,9 +9,10 @@ sequence, every enclosing `repeat` / `for_loop` / `axis_rotation` still runs its
 Import-free (core only).
 -/
 import FemtoVerif.Spec.Controller
+import FemtoVerif.Model.Transform
 
 namespace Femto.Gc
-open Femto.Ctl
+open Femto Femto.Ctl
 
 def rabs (q : Rat) : Rat := if q < 0 then -q else q
 
@@ -62,18 +63,10 @@ structure Cfg where
   neff : Rat := 1
 deriving Repr, Inhabited
 
-/-- `transform_points` for one point, warp compensation switched off.
-translate, mirror (`mirror_matrix = [[-fx,0],[0,-fy]]`, `fx = 2·int(flip_x) − 1`), rotate and scale (`(SM·RM)ᵀ`). -/
+/-- `transform_points` for one point, warp compensation switched off (the generic model of `Model/Transform.lean`
+instantiated at the exact rationals and at this configuration) -/
 def transform (cfg : Cfg) (x y z : Rat) : Rat × Rat × Rat :=
-  let x1 := x - cfg.shiftX
-  let y1 := y - cfg.shiftY
-  let fx : Rat := (if cfg.flipX then 1 else 0) * 2 - 1
-  let fy : Rat := (if cfg.flipY then 1 else 0) * 2 - 1
-  let x2 := (-fx) * x1 + 0 * y1
-  let y2 := 0 * x1 + (-fy) * y1
-  (x2 * cfg.cosA + y2 * (-cfg.sinA) + z * 0,
-   x2 * cfg.sinA + y2 * cfg.cosA + z * 0,
-   x2 * 0 + y2 * 0 + z * (1 / cfg.neff))
+  transformK cfg.shiftX cfg.shiftY cfg.flipX cfg.flipY cfg.cosA cfg.sinA cfg.neff 0 x y z
 
 /-- compiler state (everything except the instruction deque) -/
 structure CS where
